@@ -16,7 +16,7 @@ import numpy
 import scenic
 from scenic.core.distributions import (Distribution, MultiplexerDistribution, Samplable, needsSampling)
 from scenic.core.serialization import SerializationError, Serializer
-from scenic.core.simulators import DivergenceError, DummySimulator
+from scenic.core.simulators import DivergenceError, DummySimulation, DummySimulator
 from scenic.core.vectors import Orientation, Vector
 import scenic.syntax.veneer as veneer
 
@@ -62,8 +62,8 @@ def scene_canon(scene):
     return dict(objects=objs, params={k: canon(v) for k, v in scene.params.items()})
 
 
-def export_dag(scenario, sample):
-    """Walk the object graph the codec walks; fail closed on anything not understood."""
+def export_nodes(roots, sample, with_values=True):
+    """Walk the object graph the codec walks from the given roots; fail closed on anything not understood."""
     index = {}
     nodes = []
     pvals = {}
@@ -88,21 +88,52 @@ def export_dag(scenario, sample):
             if ty is None:
                 unsupported.append(type(obj).__name__ + ":" + getattr(obj._valueType, "__name__", str(obj._valueType)))
                 ty = "none"
+            if type(obj).serializeValue is not Distribution.serializeValue:
+                unsupported.append("override:" + type(obj).__name__)
             index[k] = len(nodes)
             nodes.append(["P", ty])
-            v = sample[obj]
-            pvals[index[k]] = enc_val(ty, v)
+            if with_values and obj in sample:
+                pvals[index[k]] = enc_val(ty, sample[obj])
             return index[k]
-        if type(obj).serializeValue not in (Samplable.serializeValue, Distribution.serializeValue):
-            unsupported.append("override:" + type(obj).__name__)
+        if type(obj).serializeValue not in (Samplable.serializeValue, Distribution.serializeValue) and not hasattr(type(obj), "_verif_seed_codec"):
+            if not mutation_seed_codec(obj):
+                unsupported.append("override:" + type(obj).__name__)
         deps = [visit(d) for d in obj._conditioned._dependencies]
+        extra = mutation_seed_node(obj, sample, nodes, pvals) if with_values else None
+        if extra is not None:
+            deps.append(extra)
         index[k] = len(nodes)
         nodes.append(["D", deps])
         return index[k]
 
     sys.setrecursionlimit(10000)
-    deps = [visit(o) for o in scenario.dependencies]
+    deps = [visit(o) for o in roots]
     return nodes, pvals, deps, unsupported
+
+
+def mutation_seed_codec(obj):
+    """True when obj's class uses the repaired Point codec (fix-C18-mutation-roundtrip): the dependencies
+    followed, for a mutated object, by the integer seed all its mutation noise is derived from."""
+    from scenic.core.object_types import Point
+    return isinstance(obj, Point) and type(obj).serializeValue is getattr(Point, "serializeValue", None) \
+        and hasattr(Point, "_sampleGivenWithMutationSeed")
+
+
+def mutation_seed_node(obj, sample, nodes, pvals):
+    if not mutation_seed_codec(obj):
+        return None
+    if sample[obj.mutationScale] == 0:
+        return None
+    seed = getattr(sample[obj], "_mutationSeed", None)
+    if seed is None:
+        return None
+    nodes.append(["P", "int"])
+    pvals[len(nodes) - 1] = ["I", str(int(seed))]
+    return len(nodes) - 1
+
+
+def export_dag(scenario, sample):
+    return export_nodes(scenario.dependencies, sample)
 
 
 def enc_val(ty, v):
@@ -216,69 +247,189 @@ def sim_canon(sim):
                 records=canon({k: v for k, v in r.records.items()}))
 
 
+class LogSimulation(DummySimulation):
+    """DummySimulation that logs, in order, every request the replay machinery sees: run-time draws
+    (dependency graph + values) and per-object updates (type and value of each dynamic property).
+    Optionally perturbs one dynamic property from one step on (a nondeterministic simulator)."""
+
+    def __init__(self, scene, vlog=None, perturb=None, **kwargs):
+        self._vlog = vlog if vlog is not None else []
+        self._perturb = perturb
+        self._pending = None
+        self._ncalls = {}
+        super().__init__(scene, **kwargs)
+
+    def replaySampledValue(self, dist, values):
+        nodes, _, deps, unsup = export_nodes([dist], values, with_values=False)
+        ev = dict(k="D", nodes=nodes, root=deps[0], pvals={}, replayed=True, unsupported=unsup)
+        self._vlog.append(ev)
+        self._pending = (dist, ev)
+        return super().replaySampledValue(dist, values)
+
+    def recordSampledValue(self, dist, values):
+        nodes, pvals, deps, unsup = export_nodes([dist], values)
+        if self._pending is not None and self._pending[0] is dist:
+            ev = self._pending[1]
+        else:
+            ev = dict(k="D", replayed=False)
+            self._vlog.append(ev)
+        self._pending = None
+        ev.update(nodes=nodes, root=deps[0], pvals=pvals, unsupported=unsup)
+        super().recordSampledValue(dist, values)
+
+    def getProperties(self, obj, properties):
+        vals = super().getProperties(obj, properties)
+        for prop in properties:
+            if vals.get(prop) is None and prop not in ("position",):
+                vals[prop] = getattr(obj, prop)
+        oi = self.objects.index(obj)
+        n = self._ncalls.get(oi, 0)
+        self._ncalls[oi] = n + 1
+        pt = self._perturb
+        if pt and pt["obj"] == oi and n == pt["call"] and pt["prop"] in vals:
+            v = vals[pt["prop"]]
+            d = pt["delta"]
+            if isinstance(v, Vector):
+                vals[pt["prop"]] = v + Vector(*d)
+            elif isinstance(v, bool):
+                vals[pt["prop"]] = (not v) if d[0] else v
+            elif isinstance(v, (int, float)):
+                vals[pt["prop"]] = v + (int(d[0]) if isinstance(v, int) else d[0])
+            elif isinstance(v, str):
+                vals[pt["prop"]] = v + "x"
+        dyn = obj._simulatorProvidedProperties
+        ps, unsup = [], []
+        for prop, ty in dyn.items():
+            value = vals[prop]
+            if ty is float and isinstance(value, (int, float)):
+                value = float(value)
+            elif ty is type(None):
+                ty = type(value)
+            tn = TYNAMES.get(ty)
+            if tn is None or not isinstance(value, ty):
+                unsup.append(prop + ":" + getattr(ty, "__name__", "?"))
+                tn = "none"
+            ps.append([prop, tn] + enc_val(tn, value))
+        self._vlog.append(dict(k="U", obj=oi, props=ps, unsupported=unsup))
+        return vals
+
+
+class LogSimulator(DummySimulator):
+    def __init__(self, drift=0, perturb=None):
+        super().__init__(drift=drift)
+        self.vlog = []
+        self.perturb = perturb
+
+    def createSimulation(self, scene, **kwargs):
+        return LogSimulation(scene, vlog=self.vlog, perturb=self.perturb, drift=self.drift, **kwargs)
+
+
+def float_dyadic(x):
+    m, d = float(x).as_integer_ratio()
+    return [str(m), str(-(d.bit_length() - 1))]
+
+
 def do_replay(scenario, scene, job):
+    """Runs of one scene through the real replay machinery.  Every run is logged (events interned) so
+    that the orchestrator can push the same requests through the extracted model."""
     out = {}
     steps = job.get("steps", 6)
-    simulator = DummySimulator(drift=1.0)
-    random.seed(job["seed"] + 7)
+    wr1 = job.get("wr", True)
+    events, evindex, runs = [], {}, []
+
+    def intern(log):
+        ids = []
+        for ev in log:
+            key = json.dumps(ev, sort_keys=True)
+            if key not in evindex:
+                evindex[key] = len(events)
+                events.append(ev)
+            ids.append(evindex[key])
+        return ids
+
+    def run(kind, replay, seed, wr=True, cont=False, tol=0.0, perturb=None, nsteps=None, **extra):
+        simulator = LogSimulator(drift=1.0, perturb=perturb)
+        random.seed(seed)
+        numpy.random.seed(seed % (2 ** 32))
+        rec = dict(kind=kind, replay=(replay.hex() if replay else ""), wr=wr, cont=cont, tol=float_dyadic(tol), **extra)
+        sim = None
+        try:
+            sim = simulator.simulate(scene, maxSteps=nsteps or steps, maxIterations=1, replay=replay, enableDivergenceCheck=wr,
+                                     divergenceTolerance=tol, continueAfterDivergence=cont, raiseGuardViolations=True)
+            rec["outcome"] = "ok" if sim is not None else "rejected"
+        except SerializationError:
+            rec["outcome"] = "SerializationError"
+        except DivergenceError:
+            rec["outcome"] = "DivergenceError"
+        except BaseException as e:
+            rec["outcome"] = "other:" + type(e).__name__
+            rec["info"] = traceback.format_exc()[-500:]
+        rec["log"] = intern(simulator.vlog)
+        if sim is not None:
+            rec["out"] = sim.getReplay().hex()
+        runs.append(rec)
+        return sim, rec
+
     try:
-        sim1 = simulator.simulate(scene, maxSteps=steps, maxIterations=1, enableDivergenceCheck=True, raiseGuardViolations=True)
-    except BaseException as e:
+        sim1, r1 = run("record", None, job["seed"] + 7, wr=wr1)
+    except BaseException as e:  # pragma: no cover
         return dict(skip=type(e).__name__ + ": " + str(e)[:200])
     if sim1 is None:
-        return dict(skip="rejected")
+        return dict(skip="rejected" if r1["outcome"] == "rejected" else r1["outcome"])
     c1 = sim_canon(sim1)
-    data = scenario.simulationToBytes(sim1)
-    random.seed(12345)  # a different stream: the replay must not depend on it
-    oc, sim2 = outcome_of(lambda: scenario.simulationFromBytes(data, DummySimulator(drift=1.0), maxSteps=steps, maxIterations=1, enableDivergenceCheck=True))
-    out["outcome"] = oc
-    out["equal"] = oc == "ok" and sim2 is not None and sim_canon(sim2) == c1
-    if oc == "ok" and sim2 is not None and not out["equal"]:
-        out["diff"] = dict(a=c1, b=sim_canon(sim2))
-    out["nbytes"] = len(data)
-    # a replayed simulation re-records the same replay, and its own encoding replays again (second generation)
-    if oc == "ok" and sim2 is not None:
-        out["rerecord_equal"] = sim2.getReplay() == sim1.getReplay()
-        data2 = scenario.simulationToBytes(sim2)
-        random.seed(999)
-        oc3, sim3 = outcome_of(lambda: scenario.simulationFromBytes(data2, DummySimulator(drift=1.0), maxSteps=steps, maxIterations=1))
-        out["gen2_outcome"] = oc3
-        out["gen2_equal"] = oc3 == "ok" and sim3 is not None and sim_canon(sim3) == c1
-        # replay continued past the end of the recording, then encoded and replayed again
-        random.seed(4321)
-        oc4, sim4 = outcome_of(lambda: scenario.simulationFromBytes(data, DummySimulator(drift=1.0), maxSteps=steps + 3, maxIterations=1))
-        if oc4 == "ok" and sim4 is not None:
-            c4 = sim_canon(sim4)
-            out["extended_prefix_equal"] = c4["actions"][:len(c1["actions"])] == c1["actions"]
-            data4 = scenario.simulationToBytes(sim4)
-            random.seed(5)
-            oc5, sim5 = outcome_of(lambda: scenario.simulationFromBytes(data4, DummySimulator(drift=1.0), maxSteps=steps + 3, maxIterations=1))
-            out["extended_gen2_equal"] = oc5 == "ok" and sim5 is not None and sim_canon(sim5) == c4
-        else:
-            out["extended_outcome"] = oc4
-    # divergence in either direction: drift scaled in 1/1024 units so model arithmetic is exact
-    div = []
     replay = sim1.getReplay()
-    for delta_k, tol_k in job.get("div_cases", []):
-        delta, tol = delta_k / 1024.0, tol_k / 1024.0
-
-        def run():
-            return DummySimulator(drift=1.0 + delta).replay(scene, replay, maxSteps=1, maxIterations=1, divergenceTolerance=tol)
-        try:
-            run()
-            div.append([delta_k, tol_k, False])
-        except DivergenceError:
-            div.append([delta_k, tol_k, True])
-        except BaseException as e:
-            div.append([delta_k, tol_k, "other:" + type(e).__name__])
-    out["div"] = div
-    # truncated replays are either refused or continue past the end of the replay; never crash otherwise
-    tr = []
+    data = scenario.simulationToBytes(sim1)
+    out["nbytes"] = len(data)
+    out["ndraws"] = sum(1 for i in r1["log"] if events[i]["k"] == "D")
+    # (1) replay through the public API (scene decoded from the bytes as well), a different random stream
+    random.seed(12345)
+    oc, simA = outcome_of(lambda: scenario.simulationFromBytes(data, DummySimulator(drift=1.0), maxSteps=steps, maxIterations=1, enableDivergenceCheck=wr1))
+    out["outcome"] = oc
+    out["equal"] = oc == "ok" and simA is not None and sim_canon(simA) == c1
+    if oc == "ok" and simA is not None and not out["equal"]:
+        out["diff"] = dict(a=c1, b=sim_canon(simA))
+    if oc == "ok" and simA is not None:
+        out["api_rerecord_equal"] = simA.getReplay() == replay
+    # (2) the same replay on the same scene, logged: same result, re-recorded bytes identical
+    sim2, r2 = run("replay", replay, 999, wr=wr1)
+    out["rerecord_equal"] = sim2 is not None and sim2.getReplay() == replay
+    out["replay_equal"] = sim2 is not None and sim_canon(sim2) == c1
+    # replay with the other divergence-data setting (header flag decides what is read, the option what is written)
+    sim2b, _ = run("replay-otherflag", replay, 998, wr=not wr1)
+    out["otherflag_equal"] = sim2b is not None and sim_canon(sim2b) == c1
+    if sim2 is not None:
+        sim3, _ = run("gen2", sim2.getReplay(), 5, wr=wr1)
+        out["gen2_equal"] = sim3 is not None and sim_canon(sim3) == c1
+    # (3) continued past the end of the recording, then replayed again
+    sim4, r4 = run("extended", replay, 4321, wr=wr1, nsteps=steps + 3)
+    if sim4 is not None:
+        c4 = sim_canon(sim4)
+        out["extended_prefix_equal"] = c4["actions"][:len(c1["actions"])] == c1["actions"]
+        sim5, _ = run("extended-gen2", sim4.getReplay(), 6, wr=wr1, nsteps=steps + 3)
+        out["extended_gen2_equal"] = sim5 is not None and sim_canon(sim5) == c4
+    else:
+        out["extended_outcome"] = r4["outcome"]
+    # (4) truncations
+    n = len(replay)
     rr = random.Random(job["seed"] + 3)
-    for c in sorted(rr.sample(range(len(replay)), min(len(replay), 25))):
-        oc, info = outcome_of(lambda: DummySimulator(drift=1.0).replay(scene, replay[:c], maxSteps=steps, maxIterations=1))
-        tr.append([c, oc] + ([info] if info and oc != "ok" else []))
-    out["trunc"] = tr
+    maxc = job.get("replay_cuts", 25)
+    cuts = list(range(n)) if n <= maxc else sorted(set(rr.sample(range(n), maxc - 8) + list(range(8))))
+    for c in cuts:
+        run("trunc", replay[:c], 777 + c, wr=wr1, cut=c)
+    # (5) nondeterministic simulator: one dynamic property drifts by delta from some update on
+    if r1["wr"]:
+        for pt in job.get("perturbs", []):
+            run("perturb", replay, 31, wr=pt.get("wr", True), cont=pt.get("cont", False), tol=pt["tol"],
+                perturb=dict(obj=pt["obj"], call=pt["call"], prop=pt["prop"], delta=pt["delta"]), pt=pt)
+    # (6) single-byte corruptions of the replay
+    for _ in range(job.get("replay_corruptions", 12)):
+        pos = rr.randrange(n)
+        b = rr.randrange(256)
+        if b == replay[pos]:
+            continue
+        run("corrupt", replay[:pos] + bytes([b]) + replay[pos + 1:], 55, wr=wr1, pos=pos, byte=b)
+    out["events"] = events
+    out["runs"] = runs
     return out
 
 
